@@ -11,6 +11,10 @@ var c34vectors = [...]uint64{
 	1_016_651, // 0.001016651 is not representable: a float implementation parses it back as 1016650
 	1<<53 + 1, // first integer a float64 cannot hold
 	123_456_789_012_345_678,
+	// balances below 2^53 whose quotient by 10^9 is not exact in float64 (spacing of doubles above 2^23 tokens exceeds
+	// one base unit): a float "fast path" for exactly representable balances still prints a wrong last digit here
+	8_388_608_000_000_001, 8_388_608_000_000_003, 9_000_000_000_000_001, 1<<53 - 1, 1<<52 + 1, 4_503_599_627_370_497,
+	1_000_000_000_000_001, 9_999_999_999_999_999, 7_036_874_417_766_399,
 	c34MaxU64 - 1, c34MaxU64, // float64(MaxUint64) == 2^64: the conversion back to uint64 is out of range
 }
 
